@@ -44,8 +44,12 @@ type solveOut struct {
 }
 
 func runSolver(sp solverSpec, file string, timeoutSec int) solveOut {
+	return runSolverCtx(context.Background(), sp, file, timeoutSec)
+}
+
+func runSolverCtx(parent context.Context, sp solverSpec, file string, timeoutSec int) solveOut {
 	args := sp.args(file, timeoutSec)
-	ctx, cancel := context.WithTimeout(context.Background(), time.Duration(timeoutSec+5)*time.Second)
+	ctx, cancel := context.WithTimeout(parent, time.Duration(timeoutSec+5)*time.Second)
 	defer cancel()
 	cmd := exec.CommandContext(ctx, args[0], args[1:]...)
 	var buf bytes.Buffer
@@ -64,6 +68,8 @@ func runSolver(sp solverSpec, file string, timeoutSec int) solveOut {
 		res = "sat"
 	case first == "unknown":
 		res = "unknown"
+	case parent.Err() != nil:
+		res = "cancelled"
 	case first == "timeout" || strings.Contains(first, "timeout") || ctx.Err() != nil:
 		res = "timeout"
 	case strings.Contains(out, "interrupted by timeout"):
@@ -72,44 +78,64 @@ func runSolver(sp solverSpec, file string, timeoutSec int) solveOut {
 	return solveOut{res, out, secs, sp.name}
 }
 
-// discharge runs the portfolio on one query file.
-func discharge(file string, quickSec, fullSec int, all bool) (solveOut, []solveOut) {
-	var tried []solveOut
-	if !all {
-		r := runSolver(solvers[0], file, quickSec)
-		tried = append(tried, r)
-		if r.result == "unsat" || r.result == "sat" {
-			return r, tried
-		}
+// race runs the given solvers concurrently on one query and returns as soon as one of them is decisive (the others
+// are killed); with all set it waits for every answer and reports a disagreement between decisive answers.
+func race(file string, which []int, timeoutSec int, all bool) (solveOut, []solveOut) {
+	ctx, cancel := context.WithCancel(context.Background())
+	defer cancel()
+	ch := make(chan solveOut, len(which))
+	for _, i := range which {
+		go func(sp solverSpec) { ch <- runSolverCtx(ctx, sp, file, timeoutSec) }(solvers[i])
 	}
-	// race the remaining solvers
-	ch := make(chan solveOut, len(solvers))
-	n := 0
-	for i, sp := range solvers {
-		if !all && i == 0 && quickSec >= fullSec {
+	var tried []solveOut
+	best := solveOut{result: "unknown"}
+	for range which {
+		r := <-ch
+		if r.result == "cancelled" {
 			continue
 		}
-		n++
-		go func(sp solverSpec) { ch <- runSolver(sp, file, fullSec) }(sp)
-	}
-	var best solveOut
-	best.result = "unknown"
-	if len(tried) > 0 {
-		best = tried[0]
-	}
-	for i := 0; i < n; i++ {
-		r := <-ch
 		tried = append(tried, r)
-		if r.result == "unsat" || r.result == "sat" {
-			if best.result != "unsat" && best.result != "sat" {
-				best = r
-			} else if best.result != r.result {
-				best = solveOut{"disagree", best.out + "\n---\n" + r.out, best.secs, best.solver + "/" + r.solver}
-			}
-			if !all {
-				return best, tried
-			}
+		decisive := r.result == "unsat" || r.result == "sat"
+		switch {
+		case decisive && best.result != "unsat" && best.result != "sat":
+			best = r
+		case decisive && best.result != r.result:
+			best = solveOut{"disagree", best.out + "\n---\n" + r.out, best.secs, best.solver + "/" + r.solver}
+		case !decisive && best.result == "unknown" && best.solver == "":
+			best = r
 		}
+		if decisive && !all {
+			cancel()
+			return best, tried
+		}
+	}
+	return best, tried
+}
+
+// discharge runs the portfolio on one query file: first the two z3 generations side by side (each is markedly faster
+// than the other on some queries), then, if neither decides, the remaining configurations with the long timeout.
+func discharge(file string, quickSec, fullSec int, all bool) (solveOut, []solveOut) {
+	if all {
+		var idx []int
+		for i := range solvers {
+			idx = append(idx, i)
+		}
+		return race(file, idx, fullSec, true)
+	}
+	best, tried := race(file, []int{0, 1}, quickSec, false)
+	if best.result == "unsat" || best.result == "sat" {
+		return best, tried
+	}
+	var rest []int
+	for i := range solvers {
+		if i >= 2 || quickSec < fullSec {
+			rest = append(rest, i)
+		}
+	}
+	b2, t2 := race(file, rest, fullSec, false)
+	tried = append(tried, t2...)
+	if b2.result == "unsat" || b2.result == "sat" || best.solver == "" {
+		best = b2
 	}
 	return best, tried
 }
